@@ -302,6 +302,12 @@ func (w *World) syntacticFrame(fn *ssa.Function, topName string) []*Obligation {
 						ok, why := w.ownedRoot(cc.Args[0], map[ssa.Value]bool{}, 0, false)
 						add(ins, b.Name()+" target is owned by the call", ok, why)
 					}
+					if b.Name() == "append" {
+						if base := truncatedAppendBase(cc.Args[0]); base != nil {
+							ok, why := w.sliceStorageOwned(base)
+							add(ins, "append onto a truncated view overwrites only storage owned by the call", ok, why)
+						}
+					}
 					continue
 				}
 				callee := cc.StaticCallee()
@@ -409,7 +415,7 @@ func (w *World) formatDelegation() []*FuncResult {
 		if ok && calls != 1 {
 			ok, why = false, fmt.Sprintf("%d calls instead of exactly one call of errbase.FormatError", calls)
 		}
-		o := &Obligation{Name: name + "#delegates", Func: name, Kind: "post", Props: []string{"C09"},
+		o := &Obligation{Name: name + "#delegates", Func: name, Kind: "post", Props: []string{"C09", "C06"},
 			Text: "Format hands (receiver, state, verb) unchanged to errbase.FormatError (structural)", Pos: w.Fset.Position(fn.Pos()).String()}
 		q := &Query{Goal: tTrue, Status: "trivial"}
 		if !ok {
@@ -592,4 +598,150 @@ func (w *World) registryTable(prop string) []*FuncResult {
 		obls = append(obls, o)
 	}
 	return []*FuncResult{{Name: "registry", Obls: obls}}
+}
+
+// truncatedAppendBase: when the first operand of an append is (on some path) a truncated view
+// x[:n] of another slice, the append overwrites elements of x that every other holder of x can
+// see. Returns that x, or nil when no truncation is involved (append then only writes beyond the
+// length every holder sees).
+func truncatedAppendBase(v ssa.Value) ssa.Value {
+	seen := map[ssa.Value]bool{}
+	var find func(v ssa.Value, d int) ssa.Value
+	find = func(v ssa.Value, d int) ssa.Value {
+		if v == nil || d > 16 || seen[v] {
+			return nil
+		}
+		seen[v] = true
+		switch x := v.(type) {
+		case *ssa.Slice:
+			if x.High != nil {
+				return x.X
+			}
+			return find(x.X, d+1)
+		case *ssa.Phi:
+			for _, e := range x.Edges {
+				if b := find(e, d+1); b != nil {
+					return b
+				}
+			}
+		case *ssa.ChangeType:
+			return find(x.X, d+1)
+		case *ssa.UnOp:
+			if x.Op == token.MUL {
+				if a := allocRootOf(x.X); a != nil {
+					for _, sv := range storesInto(a) {
+						if b := find(sv, d+1); b != nil {
+							return b
+						}
+					}
+				}
+			}
+		case *ssa.Call:
+			if b, ok := x.Call.Value.(*ssa.Builtin); ok && b.Name() == "append" {
+				return find(x.Call.Args[0], d+1)
+			}
+		}
+		return nil
+	}
+	return find(v, 0)
+}
+
+// sliceStorageOwned: the backing array of slice value v was created by this call (or belongs to
+// per-call engine state). Unlike ownedRoot, parameters do not count: a slice read out of (or
+// handed in as) a parameter shares its array with the caller's objects.
+func (w *World) sliceStorageOwned(v ssa.Value) (bool, string) {
+	seen := map[ssa.Value]bool{}
+	why := ""
+	var walk func(v ssa.Value, d int) bool
+	walk = func(v ssa.Value, d int) bool {
+		if v == nil || seen[v] {
+			return true
+		}
+		seen[v] = true
+		if d > 40 {
+			why = "def chain too deep"
+			return false
+		}
+		switch x := v.(type) {
+		case *ssa.Parameter:
+			pt := x.Type()
+			if pp, ok := pt.Underlying().(*types.Pointer); ok {
+				pt = pp.Elem()
+			}
+			if perCallState(pt) {
+				return true
+			}
+			why = "storage reachable from parameter " + x.Name() + " (" + x.Type().String() + ")"
+			return false
+		case *ssa.FreeVar:
+			why = "storage reachable from captured variable " + x.Name()
+			return false
+		case *ssa.Global:
+			why = "storage reachable from package variable " + x.Name()
+			return false
+		case *ssa.MakeSlice, *ssa.Const:
+			return true
+		case *ssa.Alloc:
+			for _, sv := range storesInto(x) {
+				if !walk(sv, d+1) {
+					return false
+				}
+			}
+			return true
+		case *ssa.FieldAddr:
+			return walk(x.X, d+1)
+		case *ssa.IndexAddr:
+			return walk(x.X, d+1)
+		case *ssa.Field:
+			return walk(x.X, d+1)
+		case *ssa.Index:
+			return walk(x.X, d+1)
+		case *ssa.Slice:
+			return walk(x.X, d+1)
+		case *ssa.ChangeType:
+			return walk(x.X, d+1)
+		case *ssa.Convert:
+			return true // string <-> []byte conversions copy
+		case *ssa.Extract:
+			return walk(x.Tuple, d+1)
+		case *ssa.TypeAssert:
+			return walk(x.X, d+1)
+		case *ssa.MakeInterface:
+			return walk(x.X, d+1)
+		case *ssa.Lookup:
+			return walk(x.X, d+1)
+		case *ssa.Next:
+			return walk(x.Iter, d+1)
+		case *ssa.Range:
+			return walk(x.X, d+1)
+		case *ssa.UnOp:
+			if x.Op == token.MUL {
+				return walk(x.X, d+1)
+			}
+			return true
+		case *ssa.Phi:
+			for _, e := range x.Edges {
+				if !walk(e, d+1) {
+					return false
+				}
+			}
+			return true
+		case *ssa.Call:
+			if b, ok := x.Call.Value.(*ssa.Builtin); ok {
+				if b.Name() == "append" {
+					return walk(x.Call.Args[0], d+1)
+				}
+				return true
+			}
+			if callee := x.Call.StaticCallee(); callee != nil && !x.Call.IsInvoke() && w.allocatingCallee(callee, 0) {
+				return true
+			}
+			why = "storage returned by a call that is not known to allocate it"
+			return false
+		}
+		why = fmt.Sprintf("unclassified value %T", v)
+		return false
+	}
+	ok := walk(v, 0)
+	return ok, why
 }
